@@ -18,11 +18,12 @@ Lemma stops_end b :
   (forall X, vs b X -> exists Y, X = Y ++ [b]) /\ (forall X, as_ b X -> exists Y, X = Y ++ [b]) /\
   (forall X, cs b X -> exists Y, X = Y ++ [b]).
 Proof.
-  apply (stop_mind fparse crank (eq [b]) (eq [b])).
+  apply (stop_mind fparse crank (eq [b]) (eq [b]) (fun _ => False)).
   - intros X <-. exists []. reflexivity.
   - intros X _ IH. exact IH.
   - intros X <-. exists []. reflexivity.
   - intros k kv c X _ _ _ (Y & ->). exists (k :: c :: Y). reflexivity.
+  - intros X [].
   - intros lb X _ _ (Y & ->). exists (lb :: Y). reflexivity.
   - intros lb X _ _ (Y & ->). exists (lb :: Y). reflexivity.
   - intros lb ts v tail vs0 c X _ _ _ _ _ (Y & ->). exists (lb :: ts ++ tail ++ c :: Y).
@@ -73,15 +74,16 @@ Proof.
   assert (Inner : forall (pre X0' X0 : list token) Yw, pre ++ X0' = Yw ++ [b'] -> same X0' X0 -> (exists Y, X0 = Y ++ [b]) ->
                   exists Y0, X0' = Y0 ++ [b']).
   { intros pre X0' X0 Yw E HS (Y & ->). apply (ends_suffix pre X0' Yw b' E). eapply same_nonempty; [exact HS|apply end_nonempty]. }
-  apply (stop_mind fparse crank (eq [b]) (eq [b])).
+  apply (stop_mind fparse crank (eq [b]) (eq [b]) (fun _ => False)).
   - intros X <- X' H (Yw & Ew). simpl in H. cons_in H a0 r0. apply map_eq_nil in H. subst.
     destruct Yw as [|y Yw]; [|destruct Yw; discriminate]. inversion Ew; subst. apply vs_base. reflexivity.
   - intros X C IH X' H Hend. apply vs_coll. apply IH; auto.
   - intros X <- X' H (Yw & Ew). simpl in H. cons_in H a0 r0. apply map_eq_nil in H. subst.
     destruct Yw as [|y Yw]; [|destruct Yw; discriminate]. inversion Ew; subst. apply as_base. reflexivity.
   - intros k kv c X L Bc V IH X' H (Yw & Ew). simpl in H. cons_in H k' r1. cons_in H c' r2.
-    apply (as_value fparse crank (eq [b']) (eq [b']) k' kv c' r2); eauto using litv_strip, dl_strip.
+    apply (as_value fparse crank (eq [b']) (eq [b']) (fun _ => False) k' kv c' r2); eauto using litv_strip, dl_strip.
     apply IH; auto. apply (Inner [k'; c'] r2 X Yw Ew H (Ev X V)).
+  - intros X [].
   - intros lb X B A IH X' H (Yw & Ew). simpl in H. cons_in H lb' r1.
     apply cs_first_assoc; eauto using dl_strip. apply IH; auto. apply (Inner [lb'] r1 X Yw Ew H (Ea X A)).
   - intros lb X B C IH X' H (Yw & Ew). simpl in H. cons_in H lb' r1.
@@ -89,7 +91,7 @@ Proof.
   - intros lb ts v tail vs0 c X B DV DT Bc V IH X' H (Yw & Ew).
     simpl in H. cons_in H lb' r1. rewrite map_app in H. app_in H ts' r2 Hts. rewrite map_app in H. app_in H tail' r3 Htail.
     simpl in H. cons_in H c' r4.
-    apply (cs_later_value fparse crank (eq [b']) (eq [b']) lb' ts' v tail' vs0 c' r4); eauto using dl_strip.
+    apply (cs_later_value fparse crank (eq [b']) (eq [b']) (fun _ => False) lb' ts' v tail' vs0 c' r4); eauto using dl_strip.
     + apply (proj1 dstrip ts v DV ts' Hts).
     + apply (proj1 (proj2 (proj2 (proj2 dstrip))) tail vs0 DT tail' Htail).
     + apply IH; auto. apply (Inner (lb' :: ts' ++ tail' ++ [c']) r4 X Yw); auto.
@@ -97,7 +99,7 @@ Proof.
   - intros lb ts kv tail kvs c X B DA DT Bc A IH X' H (Yw & Ew).
     simpl in H. cons_in H lb' r1. rewrite map_app in H. app_in H ts' r2 Hts. rewrite map_app in H. app_in H tail' r3 Htail.
     simpl in H. cons_in H c' r4.
-    apply (cs_later_assoc fparse crank (eq [b']) (eq [b']) lb' ts' kv tail' kvs c' r4); eauto using dl_strip.
+    apply (cs_later_assoc fparse crank (eq [b']) (eq [b']) (fun _ => False) lb' ts' kv tail' kvs c' r4); eauto using dl_strip.
     + apply (proj1 (proj2 (proj2 (proj2 (proj2 (proj2 dstrip))))) ts kv DA ts' Hts).
     + apply (proj1 (proj2 (proj2 (proj2 (proj2 (proj2 (proj2 dstrip)))))) tail kvs DT tail' Htail).
     + apply IH; auto. apply (Inner (lb' :: ts' ++ tail' ++ [c']) r4 X Yw); auto.
@@ -108,14 +110,14 @@ Proof.
     apply cs_multi_first_coll; eauto using dl_strip, eolt_strip. apply IH; auto. apply (Inner [lb'; e'] r2 X Yw Ew H (Ec X C)).
   - intros lb e ts v tm vs0 X B Ee DV DT V IH X' H (Yw & Ew).
     simpl in H. cons_in H lb' r1. cons_in H e' r2. rewrite map_app in H. app_in H ts' r3 Hts. rewrite map_app in H. app_in H tm' r4 Htm.
-    apply (cs_multi_later_value fparse crank (eq [b']) (eq [b']) lb' e' ts' v tm' vs0 r4); eauto using dl_strip, eolt_strip.
+    apply (cs_multi_later_value fparse crank (eq [b']) (eq [b']) (fun _ => False) lb' e' ts' v tm' vs0 r4); eauto using dl_strip, eolt_strip.
     + apply (proj1 dstrip ts v DV ts' Hts).
     + apply (proj1 (proj2 (proj2 (proj2 (proj2 dstrip)))) tm vs0 DT tm' Htm).
     + apply IH; auto. apply (Inner (lb' :: e' :: ts' ++ tm') r4 X Yw); auto.
       rewrite <- Ew. cbn [app]. rewrite <- !app_assoc. reflexivity.
   - intros lb e ts kv tm kvs X B Ee DA DT A IH X' H (Yw & Ew).
     simpl in H. cons_in H lb' r1. cons_in H e' r2. rewrite map_app in H. app_in H ts' r3 Hts. rewrite map_app in H. app_in H tm' r4 Htm.
-    apply (cs_multi_later_assoc fparse crank (eq [b']) (eq [b']) lb' e' ts' kv tm' kvs r4); eauto using dl_strip, eolt_strip.
+    apply (cs_multi_later_assoc fparse crank (eq [b']) (eq [b']) (fun _ => False) lb' e' ts' kv tm' kvs r4); eauto using dl_strip, eolt_strip.
     + apply (proj1 (proj2 (proj2 (proj2 (proj2 (proj2 dstrip))))) ts kv DA ts' Hts).
     + apply (proj2 (proj2 (proj2 (proj2 (proj2 (proj2 (proj2 dstrip)))))) tm kvs DT tm' Htm).
     + apply IH; auto. apply (Inner (lb' :: e' :: ts' ++ tm') r4 X Yw); auto.
